@@ -365,24 +365,92 @@ func runC14(c *Ctx) {
 		}
 	}
 	c.Check(newSet != nil && updSet != nil && delSet != nil && newSet != updSet && newSet != delSet && updSet != delSet, r3, "three-sets", FirstPos(p, upd), "three distinct sets", "the update does not keep three distinct sets for new, updated and removed processes")
-	newSet, updSet, delSet = toUpd(newSet), toUpd(updSet), toUpd(delSet)
+	// the values through which each set reaches the action loops: results of the classifying helper as seen by its
+	// caller, and parameters of helpers the sets are handed to
+	flows := func(v ssa.Value) map[ssa.Value]bool {
+		out := map[ssa.Value]bool{}
+		if v == nil {
+			return out
+		}
+		out[stripConv(v)] = true
+		for round := 0; round < 4; round++ {
+			for _, g := range p.FuncsOfPkg("app") {
+				AllInstrs(g, func(in ssa.Instruction) {
+					switch x := in.(type) {
+					case *ssa.Return:
+						for i, r := range x.Results {
+							if !out[stripConv(r)] {
+								continue
+							}
+							for _, cr := range p.Callers(g) {
+								call, ok := cr.Instr.(*ssa.Call)
+								if !ok {
+									continue
+								}
+								if len(x.Results) == 1 {
+									out[call] = true
+									continue
+								}
+								for _, ref := range *call.Referrers() {
+									if ex, ok := ref.(*ssa.Extract); ok && ex.Index == i {
+										out[ex] = true
+									}
+								}
+							}
+						}
+					case *ssa.Call:
+						sc := x.Call.StaticCallee()
+						if sc == nil || len(sc.Blocks) == 0 || pkgOfFunc(sc) == nil || pkgOfFunc(sc).Name() != "app" {
+							return
+						}
+						args := x.Call.Args
+						for j, a := range args {
+							if out[stripConv(a)] && j < len(sc.Params) {
+								out[sc.Params[j]] = true
+							}
+						}
+					}
+				})
+			}
+		}
+		return out
+	}
+	_ = toUpd
+	newFlow, updFlow, delFlow := flows(newSet), flows(updSet), flows(delSet)
+	// the action loops: in the update operation or in a helper it calls
+	actionFns := []*ssa.Function{upd}
+	AllInstrs(upd, func(in ssa.Instruction) {
+		if call, ok := in.(*ssa.Call); ok {
+			if sc := call.Call.StaticCallee(); sc != nil && len(sc.Blocks) > 0 && s.IsRunnerMethod(sc) && sc != diffFn {
+				actionFns = appendUniq(actionFns, sc)
+			}
+		}
+	})
 	// the action loops
 	removeDeep := p.Deep(MapDeleteOn("delete Processes", s.FProcesses))
 	addDeep := p.Deep(MapUpdateOn("insert Processes", s.FProcesses))
 	roleLoop := map[string]RangeLoop{}
-	for _, l := range RangeLoops(upd) {
+	var allLoops []RangeLoop
+	for _, af := range actionFns {
+		allLoops = append(allLoops, RangeLoops(af)...)
+	}
+	for _, l := range allLoops {
 		var role string
 		var wantOK, wantErr string
 		switch {
-		case newSet != nil && stripConv(l.Coll) == stripConv(newSet):
+		case newFlow[stripConv(l.Coll)]:
 			role, wantOK = "added", added
-		case delSet != nil && stripConv(l.Coll) == stripConv(delSet):
+		case delFlow[stripConv(l.Coll)]:
 			role, wantOK, wantErr = "removed", removed, errored
-		case updSet != nil && stripConv(l.Coll) == stripConv(updSet):
+		case updFlow[stripConv(l.Coll)]:
 			role, wantOK, wantErr = "updated", updated, errored
 		default:
 			continue
 		}
+		if _, dup := roleLoop[role]; dup {
+			continue
+		}
+		c.Touch(l.If.Parent())
 		roleLoop[role] = l
 		region := DominatedBlocks(l.Body)
 		var statuses []string
